@@ -214,6 +214,19 @@ def run_case(ctx, i, rng):
         if e:
             ctx.violation("element-root:definition", "%s | %s" % (e, st))
             return
+    # library root and nested collections of definitions: occurrences of every instance of those definitions
+    for root, what in [(l, "library") for l in pick(n.libraries, 2)] + [(pick(defs, 3), "definition list")]:
+        members = list(root.definitions) if what == "library" else list(root)
+        mids = set(id(x) for x in members)
+        wl = collections.Counter()
+        for s in occ["instances"]:
+            if id(s[-1].reference) in mids:
+                wl[ids(s)] += 1
+        ctx.count("element_root_queries")
+        e = cmp(ctx, "get_hinstances(%s)" % what, list(sdn.get_hinstances(root if what == "library" else members)), wl)
+        if e:
+            ctx.violation("element-root:%s" % what.replace(" ", "-"), "%s | %s" % (e, st))
+            return
     # HRef roots: the sub-tree below an occurrence
     hinsts = [h for h in held if isinstance(h.item, sdn.Instance)]
     for h in pick(hinsts, 5):
@@ -229,6 +242,7 @@ def run_case(ctx, i, rng):
     # D. breaking edits
     sample = held if len(held) <= 150 else rng.sample(held, 150)
     seqs = [seq(h) for h in sample]
+    example_names = [h.name for h in sample[:6]]
     edits = 0
     for step in range(rng.randint(5, 20)):
         k = rng.randrange(9)
@@ -300,4 +314,4 @@ def run_case(ctx, i, rng):
     ctx.count("edits_applied", edits)
     if i < 3:
         ctx.sample({"shape": st, "references_enumerated": len(held), "edits": edits,
-                    "example_names": [h.name for h in sample[:6]]})
+                    "example_names": example_names})
